@@ -37,6 +37,9 @@ type JEv struct {
 	Ps         []JPeer  `json:"ps,omitempty"`
 	LookupFail []uint64 `json:"lookup_fail,omitempty"`
 	Entries    []JEntry `json:"entries,omitempty"`
+	// connected: the next event (a disconnect of the same peer) arrives while this peer's
+	// announcement is still in flight (its first stream is being opened)
+	OverlapNext bool `json:"overlap_next,omitempty"`
 }
 type In struct {
 	Tag    string `json:"tag"`
@@ -74,6 +77,9 @@ type svc struct {
 	claimedOf  map[string]uint64
 	gate       chan struct{}
 	done       sync.WaitGroup
+	strArmed   bool
+	strHit     chan struct{}
+	strRel     chan struct{}
 }
 
 func underlay(a uint64) []byte { return []byte(fmt.Sprintf("underlay-of-%d", a)) }
@@ -117,6 +123,17 @@ func (r *recStream) Reset() error { return nil }
 func (r *recStream) Close() error { return nil }
 
 func (s *svc) NewStream(_ context.Context, p p2p.Peer, _ p2p.Header, _ p2p.StreamDesc) (p2p.Stream, error) {
+	s.mu.Lock()
+	armed, hit, rel := s.strArmed, s.strHit, s.strRel
+	s.strArmed = false
+	s.mu.Unlock()
+	if armed { // one-shot gate: the announcement is held while the harness delivers another event
+		close(hit)
+		select {
+		case <-rel:
+		case <-time.After(2 * time.Second):
+		}
+	}
 	return &recStream{s, p}, nil
 }
 func (s *svc) Connect(_ context.Context, info []byte) (p2p.Peer, error) {
@@ -167,7 +184,77 @@ func run(in In) (obs Obs) {
 	defer disc.Close()
 	topo.SetAnnouncer(disc)
 	handler := disc.Streams()[0].Handler
+	views := func() Step {
+		st := Step{Providers: []JPeer{}, Bidders: []JPeer{}, Connected: []uint64{}, Broadcasts: []JBroadcast{}, Dialled: []uint64{}}
+		for _, p := range topo.GetPeers(topology.Query{Type: p2p.PeerTypeProvider}) {
+			st.Providers = append(st.Providers, jpeer(p))
+		}
+		for _, p := range topo.GetPeers(topology.Query{Type: p2p.PeerTypeBidder}) {
+			st.Bidders = append(st.Bidders, jpeer(p))
+		}
+		sort.Slice(st.Providers, func(a, b int) bool { return st.Providers[a].Addr < st.Providers[b].Addr })
+		sort.Slice(st.Bidders, func(a, b int) bool { return st.Bidders[a].Addr < st.Bidders[b].Addr })
+		for _, a := range probe {
+			if topo.IsConnected(addr(a)) {
+				st.Connected = append(st.Connected, a)
+			}
+		}
+		return st
+	}
+	sortB := func(bs []JBroadcast) {
+		sort.Slice(bs, func(a, b int) bool {
+			x, y := bs[a], bs[b]
+			if x.To.Addr != y.To.Addr {
+				return x.To.Addr < y.To.Addr
+			}
+			return fmt.Sprint(x.Records) < fmt.Sprint(y.Records)
+		})
+	}
+	skipNext := false
 	for i, ev := range in.Events {
+		if skipNext {
+			skipNext = false
+			continue
+		}
+		if ev.T == "connected" && ev.OverlapNext && i+1 < len(in.Events) && in.Events[i+1].T == "disconnected" {
+			skipNext = true
+			s.mu.Lock()
+			s.broadcasts, s.dialled = nil, nil
+			s.lookupFail = map[uint64]bool{}
+			for _, a := range ev.LookupFail {
+				s.lookupFail[a] = true
+			}
+			s.strArmed, s.strHit, s.strRel = true, make(chan struct{}), make(chan struct{})
+			hitC, rel := s.strHit, s.strRel
+			s.mu.Unlock()
+			doneC := make(chan struct{})
+			go func() { topo.Connected(peerOf(*ev.P)); close(doneC) }()
+			hit := false
+			select {
+			case <-hitC:
+				hit = true
+			case <-doneC:
+			}
+			s.mu.Lock()
+			s.strArmed = false
+			s.mu.Unlock()
+			st1 := views() // the view while the announcement is in flight (or after it, if nothing was to announce)
+			topo.Disconnected(peerOf(*in.Events[i+1].P))
+			st2 := views()
+			if hit {
+				close(rel)
+				<-doneC
+				// the view once the announcement finished must still be the one after the disconnect
+				st3 := views()
+				st2.Providers, st2.Bidders, st2.Connected = st3.Providers, st3.Bidders, st3.Connected
+			}
+			s.mu.Lock()
+			st1.Broadcasts = append(st1.Broadcasts, s.broadcasts...)
+			s.mu.Unlock()
+			sortB(st1.Broadcasts)
+			obs.Steps = append(obs.Steps, st1, st2)
+			continue
+		}
 		s.mu.Lock()
 		s.broadcasts, s.dialled = nil, nil
 		s.lookupFail = map[uint64]bool{}
@@ -291,6 +378,14 @@ func main() {
 		{"unknown-roles", []JEv{{T: "connected", P: P(1, 0)}, {T: "connected", P: P(2, -1)}, {T: "connected", P: P(3, 1)}, {T: "disconnected", P: P(3, 0)}, {T: "connected", P: P(4, 7)}}},
 		{"reconnect", []JEv{{T: "connected", P: P(1, 1)}, {T: "disconnected", P: P(1, 1)}, {T: "connected", P: P(2, 2)}, {T: "connected", P: P(1, 1)}, {T: "connected", P: P(1, 1)}}},
 	}
+	// a peer disconnects while its own announcement is still going out
+	fixed = append(fixed,
+		In{"disconnect-during-announcement", []JEv{{T: "connected", P: P(1, 1)}, {T: "connected", P: P(2, 2)}, {T: "connected", P: P(3, 1), OverlapNext: true}, {T: "disconnected", P: P(3, 1)},
+			{T: "connected", P: P(4, 2)}}},
+		In{"disconnect-during-announcement", []JEv{{T: "connected", P: P(1, 1)}, {T: "connected", P: P(5, 2), OverlapNext: true}, {T: "disconnected", P: P(5, 2)}, {T: "connected", P: P(6, 1)}}},
+		In{"disconnect-during-announcement", []JEv{{T: "connected", P: P(2, 2)}, {T: "connected", P: P(1, 1), OverlapNext: true}, {T: "disconnected", P: P(1, 1)}, {T: "connected", P: P(1, 1)}}},
+		In{"disconnect-during-announcement", []JEv{{T: "connected", P: P(1, 1), OverlapNext: true}, {T: "disconnected", P: P(1, 1)}}},
+	)
 	for _, in := range fixed {
 		out.Emit(in, run(in))
 	}
@@ -316,6 +411,10 @@ func main() {
 				}
 				evs = append(evs, ev)
 			case r < 80:
+				if rng.Chance(25) && (p.Role == 1 || p.Role == 2) {
+					// connects and is gone again before its announcement went out
+					evs = append(evs, JEv{T: "connected", P: p, OverlapNext: true})
+				}
 				evs = append(evs, JEv{T: "disconnected", P: p})
 			default:
 				ev := JEv{T: "gossip"}
